@@ -47,7 +47,8 @@ def sample_read(k, size=3):
     seq = "AA" + ("C" * size if k in CONSUMES_QUERY and k != 5 else "") + "AA"
     if k == 5:
         seq = "AAAA"
-    qual = [12 + 3 * i for i in range(len(seq))]
+    # distinct per base; the middle run lies in another quality bin than its neighbours (a wrong slice of the qualities shows)
+    qual = [12, 15] + ([4, 6, 8, 5, 7][:size] if len(seq) > 4 else []) + [38, 41]
     return cigar, seq, qual
 
 
@@ -66,12 +67,16 @@ def fn_body(f):
     return [s for s in f.body if not (isinstance(s, ast.Expr) and isinstance(s.value, ast.Constant))]
 
 
-def fold_parse_read(repo, cigar, seq, qual, mq=37, multi=None, gene=None, ref_start=START, phaseable=None, eqs=None, indel_sites=None):
+def fold_parse_read(repo, cigar, seq, qual, mq=37, multi=None, gene=None, ref_start=START, phaseable=None, eqs=None, indel_sites=None, into=None):
+    """into = (sample object, norm, muts) of an earlier call: the read is added to the same tables (a pileup of several reads)."""
     f = repo.func("sam::Sample._parse_read")
-    me = Obj(phases={}, gene=gene or GeneStub(), phaseable=dict(phaseable or {}), _indel_sites_eqs=dict(eqs or {}), _indel_sites=dict(indel_sites or {}),
-             _multi_sites=dict(multi or {}))
-    norm, muts = collections.defaultdict(list), collections.defaultdict(list)
-    env = {"self": me, "fragment": "r1", "ref_start": ref_start, "cigar": cigar, "seq": seq, "norm": norm, "muts": muts,
+    if into is not None:
+        me, norm, muts = into
+    else:
+        me = Obj(phases={}, gene=gene or GeneStub(), phaseable=dict(phaseable or {}), _indel_sites_eqs=dict(eqs or {}), _indel_sites=dict(indel_sites or {}),
+                 _multi_sites=dict(multi or {}))
+        norm, muts = collections.defaultdict(list), collections.defaultdict(list)
+    env = {"self": me, "fragment": f"r{len(me.phases) + 1}", "ref_start": ref_start, "cigar": cigar, "seq": seq, "norm": norm, "muts": muts,
            "mq": mq, "qual": qual}
     ev = Evaluator(env, funcs={"mean": statistics.mean})
     kind, val = ev.run(fn_body(f))
